@@ -310,3 +310,9 @@ def run(ctx):
             rel9,
             fn9.lineno,
         )
+
+    # ---- C18.10 (the obligations of C27.5: a derived task does not share its exported-option set with the task it was derived from) ----
+    from ..report import BorrowCtx as _BorrowCtx10
+    from . import C27 as _borrowed_C27
+
+    _borrowed_C27.run(_BorrowCtx10(ctx, {"C27.5": "C18.10"}))
